@@ -503,3 +503,147 @@ def check_progress(ctx, rule, fns, cursor_fields=("position", "pos"), allow=None
     ctx.counts["%s:scanner-loops" % rule] = n
     ctx.counts["%s:advancing-functions" % rule] = len(advancing)
     return n
+
+
+READ_CALLS = ["std::io::Read::read", "std::io::BufRead::read_line", "std::io::BufRead::read_until", "std::io::BufRead::fill_buf"]
+
+
+def count_returning_readers(facts, scope):
+    """crate functions in scope that return the number of bytes a std read produced (`Result<usize, _>`/usize whose value
+    flows from a READ_CALLS result): their callers face the same end-of-input obligation"""
+    out = set()
+    for fid in scope:
+        fn = facts.fns.get(fid)
+        if fn is None or not fn.ret or "usize" not in fn.ret or fn.kind == "Closure":
+            continue
+        fl = FL.flow(fn)
+        seen, drecs = fl.back_slice([0])
+        if any(L.is_call_to(c, READ_CALLS) for b, c in fl.calls_in_slice(drecs)):
+            out.add(fid)
+    return out
+
+
+EMPTY_PRESERVING = ["trim", "trim_start", "trim_end", "as_str", "as_bytes", "deref", "as_ref", "borrow", "as_slice", "to_string", "clone",
+                    "to_owned", "trim_matches", "trim_end_matches", "trim_start_matches", "to_lowercase", "to_uppercase", "from_utf8_lossy",
+                    "branch", "unwrap", "unwrap_or_default", "into"]
+
+
+def check_eof_tests(ctx, rule, scope, allow=None):
+    """reader-driven loops (not iterator-driven; the body calls a read that reports what it produced): simulate the state at end
+    of input — the read yields a count of 0 / an empty slice and leaves its (cleared) buffer empty — with path-sensitive boolean
+    constant propagation (P9b) and ask whether a back edge of the loop is still reachable from the read.  If it is, a truncated
+    file makes the loop spin forever (e.g. `if line.trim().is_empty() { continue }` before any test of the byte count)."""
+    facts = ctx.facts
+    allow = allow or {}
+    readers = count_returning_readers(facts, scope)
+    n = 0
+    for fid in sorted(scope):
+        fn = facts.fns.get(fid)
+        if fn is None:
+            continue
+        g = CF.cfg(fn, thread=True)
+        loops = g.loops()
+        if not loops:
+            continue
+        fl = FL.flow(fn)
+        k = 0
+        for h, body in sorted(loops.items()):
+            rd = [b for b in body if fn.term(b)[0] == "call" and isinstance(fn.term(b)[1], dict) and
+                  (L.is_call_to(fn.term(b)[1], READ_CALLS) or fn.term(b)[1].get("r") in readers)]
+            inner = [b2 for h2, b2 in loops.items() if h2 != h and h2 in body]
+            rd = [b for b in rd if not any(b in b2 for b2 in inner)]
+            if not rd or is_iterator_driven(fn, g, body, h):
+                continue
+            latches = [s for s, hh in g.back_edges() if hh == h]
+            for r in rd:
+                k += 1
+                n += 1
+                key = "%s:read#%d:eof-leaves-loop" % (L.short(fid), k)
+                t = fn.term(r)
+                dest = t[3][0]
+                # the buffer handed to the read by &mut (second argument), assumed empty after an EOF read when it is cleared
+                # in the loop before the read or by the (crate-local) reader itself
+                buf = None
+                if len(t[2]) > 1:
+                    rt = L.recv_of(fn, t[2][1:2])
+                    if rt and not rt[1]:
+                        buf = rt[0]
+                buf_cleared = False
+                if buf is not None:
+                    for cb, cc, ca, cd in L.calls_to(fn, ["clear"]):
+                        rr = L.recv_of(fn, ca)
+                        if cb in body and rr and rr[0] == buf and g.dominates(cb, r):
+                            buf_cleared = True
+                    f2 = facts.fns.get(t[1].get("r"))
+                    if f2 is not None and L.calls_to(f2, ["clear"]):
+                        buf_cleared = True
+                # integer locals that carry the count: value derives from the read result only
+                zero = {}
+                for l, ty in enumerate(fn.locals):
+                    if ty in _INTS and l != dest:
+                        vs = L.value_slice_calls(fn, [l])
+                        if vs and all(cb == r or L.is_call_to(cc, ["branch", "unwrap", "unwrap_or", "unwrap_or_default", "map_err", "from_residual"]) for cb, cc, aa in vs) \
+                                and any(cb == r for cb, cc, aa in vs):
+                            zero[l] = 0
+
+                def derives_from_eof_data(args):
+                    """first argument's value comes from the read's result slice or from the emptied buffer through
+                    empty-preserving functions"""
+                    if not args:
+                        return False
+                    seen, drecs = fl.back_slice(FL.op_locals(args[0]), stop_at_calls=lambda c: not L.is_call_to(c, EMPTY_PRESERVING) )
+                    if buf is not None and buf_cleared and buf in seen:
+                        return True
+                    return any(d[0] == "call" and d[1] == r for d in drecs) and "usize" not in (fn.locals[dest] if dest < len(fn.locals) else "") \
+                        or any(d[0] == "call" and d[1] == r for d in drecs) and "[u8]" in fn.locals[dest]
+
+                def lit_nonempty(op):
+                    if op[0] == "k":
+                        v = op[2]
+                        if isinstance(v, int):
+                            return True          # a char / byte pattern
+                        if isinstance(v, dict):
+                            return bool(v.get("s") or v.get("b"))
+                    s_ = L.resolve_str_operand(fn, op)
+                    return bool(s_)
+
+                def call_value(b, tt):
+                    c = tt[1]
+                    if not isinstance(c, dict) or b == r:
+                        return None
+                    a = tt[2]
+                    nm = L.short(c.get("p") or "")
+                    if nm in ("is_empty",) and derives_from_eof_data(a):
+                        return True
+                    if nm == "len" and derives_from_eof_data(a):
+                        return 0
+                    if nm in ("starts_with", "ends_with", "contains") and len(a) > 1 and derives_from_eof_data(a) and lit_nonempty(a[1]):
+                        return False
+                    if nm in ("eq", "ne") and len(a) == 2:
+                        for x, y in ((a[0], a[1]), (a[1], a[0])):
+                            if derives_from_eof_data([x]) and lit_nonempty(y):
+                                return nm == "ne"
+                    return None
+                # `match read(..) { Ok(0) => .., Ok(n) => .. }` switches on the payload place of the result itself
+                count_like = "usize" in fn.locals[dest]
+
+                def place_value(pl, _d=dest):
+                    if count_like and pl[0] == _d and pl[1] and isinstance(pl[1][-1], list) and pl[1][-1][0] == "f" and pl[1][-1][1] == 0 \
+                            and any(isinstance(x, list) and x[0] == "d" and x[1] in ("Ok", "Continue") for x in pl[1]):
+                        return 0
+                    return None
+                outside = set(range(len(fn.blocks))) - set(body)
+                reach = CF.reachable_assuming(fn, call_value, start=r, avoid=outside, fixed=zero, place_value=place_value)
+                hit = [l for l in latches if l in reach]
+                if not hit:
+                    ctx.ok(rule, key, "with a 0-byte read and an empty buffer no back edge of the loop is reachable", fn.where(r))
+                elif key in allow:
+                    ctx.ok(rule, key, "reviewed: " + allow[key], fn.where(r))
+                else:
+                    w = g.path(r, hit, avoid_blocks=(outside | (set(body) - reach))) or []
+                    ctx.violation(rule, key, "the loop at %s reads input with %s; at end of input (0 bytes read, empty buffer) it can still "
+                                  "return to its header — through line(s) %s — so a truncated file makes it spin forever"
+                                  % (fn.where(h), L.short(t[1].get("p") or "?"), sorted(set(fn.line(x) for x in w))[:10]),
+                                  fn.where(r), {"path_lines": [fn.line(x) for x in w][:14], "count_locals": sorted(zero), "buffer_assumed_empty": buf_cleared})
+    ctx.counts["%s:reader-driven loops" % rule] = n
+    return n
